@@ -162,6 +162,9 @@ func (f *Frame) instr(in ssa.Instruction, guard string, st *State) {
 		f.rets = append(f.rets, &retRec{guard: guard, results: rs, state: st.clone()})
 	case *ssa.If:
 		c := f.val(x.Cond).T
+		if e.declared[c] {
+			e.splitVars = append(e.splitVars, c)
+		}
 		b := x.Block()
 		f.edgeCond[[2]int{b.Index, b.Succs[0].Index}] = c
 		f.edgeCond[[2]int{b.Index, b.Succs[1].Index}] = not(c)
@@ -760,13 +763,11 @@ func (f *Frame) convert(x *ssa.Convert, guard string, st *State) {
 		}
 	case isString(to):
 		if sl, ok := from.Underlying().(*types.Slice); ok {
-			// string([]byte)
+			// string([]byte): the uninterpreted constructor str_of(array, offset, length) with its two defining axioms
 			hn, hs := e.elemHeap(sl.Elem())
 			arr := e.define("cva", "(Array Int Int)", fmt.Sprintf("(select %s (s-ref %s))", e.getHeap(st, hn, hs), xv.T))
-			s := e.fresh(f.name(x), sStr)
-			e.assert(fmt.Sprintf("(= (slen %s) (s-len %s))", s, xv.T))
-			e.assert(fmt.Sprintf("(forall ((k Int)) (! (=> (and (<= 0 k) (< k (s-len %s))) (= (sat %s k) (select %s (+ (s-off %s) k)))) :pattern ((sat %s k))))", xv.T, s, arr, xv.T, s))
-			f.set(x, Val{T: s})
+			e.needStrOf()
+			f.bind(x, fmt.Sprintf("(str_of %s (s-off %s) (s-len %s))", arr, xv.T, xv.T))
 		} else {
 			f.set(x, f.freshVal(x.Name(), to))
 		}
